@@ -110,3 +110,21 @@ Proof.
   - repeat (first [apply Forall_nil | apply Forall_cons]); unfold vtrain; cbn [tr_spikes tr_start tr_end fst snd]; repeat split; try lra; valid_tac.
   - apply idx_ok_none. auto with arith.
 Qed.
+
+(* ---- executed instance (Q, extracted to OCaml and run against /repo) = the real-number functions
+   the theorems above are about: kernel-checked parametricity bridge (Bridge.v).  qL = map Q2R etc. ---- *)
+From Coq Require Import QArith Qreals.
+From PS Require Import Bridge.
+Local Close Scope Q_scope.
+Theorem C18_exec_isi_profile_multi_transfer : forall (eps : Q) (cy rc : bool) (m : Q) (l : list train) (idx : option (list nat)), rmap qLL (isi_profile_multi QOps eps cy rc m l idx) = isi_profile_multi ROps (Q2R eps) cy rc (Q2R m) (map qTrain l) idx.
+Proof. exact isi_profile_multi_transfer. Qed.
+Print Assumptions C18_exec_isi_profile_multi_transfer.
+Theorem C18_exec_spike_sync_profile_multi_transfer : forall (eps : Q) (cy rc : bool) (mt m : Q) (l : list train) (idx : option (list nat)), rmap (map q3) (spike_sync_profile_multi QOps eps cy rc mt m l idx) = spike_sync_profile_multi ROps (Q2R eps) cy rc (Q2R mt) (Q2R m) (map qTrain l) idx.
+Proof. exact spike_sync_profile_multi_transfer. Qed.
+Print Assumptions C18_exec_spike_sync_profile_multi_transfer.
+Theorem C18_exec_order_profile_multi_transfer : forall (eps : Q) (cy rc : bool) (mt m : Q) (l : list train) (idx : option (list nat)), rmap (map q3) (order_profile_multi QOps eps cy rc mt m l idx) = order_profile_multi ROps (Q2R eps) cy rc (Q2R mt) (Q2R m) (map qTrain l) idx.
+Proof. exact order_profile_multi_transfer. Qed.
+Print Assumptions C18_exec_order_profile_multi_transfer.
+Theorem C18_exec_spike_directionality_matrix_transfer : forall (eps : Q) (cy rc normalize : bool) (mt m : Q) (l : list train) (idx : option (list nat)), rmap (map qL) (spike_directionality_matrix QOps eps cy rc normalize mt m l idx) = spike_directionality_matrix ROps (Q2R eps) cy rc normalize (Q2R mt) (Q2R m) (map qTrain l) idx.
+Proof. exact spike_directionality_matrix_transfer. Qed.
+Print Assumptions C18_exec_spike_directionality_matrix_transfer.
